@@ -20,6 +20,7 @@ import (
 
 	cptv "github.com/TheCacophonyProject/go-cptv"
 	"github.com/TheCacophonyProject/go-cptv/cptvframe"
+	"periph.io/x/periph/host"
 	"pgregory.net/rapid"
 	kit "verifkit"
 )
@@ -56,6 +57,12 @@ func vfC10Restart(dir string) {
 		os.Exit(5)
 	}
 	defer bus.cmd.Process.Kill()
+	if _, err := host.Init(); err != nil {
+		// the host drivers the daemon initialises are not usable here: nothing to do with the code under test
+		fmt.Println("host.Init:", err)
+		bus.cmd.Process.Kill()
+		os.Exit(5)
+	}
 	conf, err := ParseConfig(dir)
 	if err != nil {
 		fmt.Println("ParseConfig:", err)
